@@ -26,15 +26,18 @@ Proof.
   vm_compute. repeat split; reflexivity.
 Qed.
 
-(* finding C17/outdated-shape-prevents-startup: import_value of a tuple (array, struct) does not check the length
-   (members), the too short tuple is stored in the parameter, and export_value in __save_params raises *)
-Definition M_tuple : mdesc :=
-  [{| p_dt := DTuple [DInt (-1000) 1000; DInt (-1000) 1000]; p_pers := 1; p_hasw := false; p_default := VSeq [VInt 1; VInt 2] |}].
+(* finding C17/outdated-shape-prevents-startup: import_value of a struct admits missing optional members (all
+   members are optional by default), the partial struct is stored in the parameter, and export_value in
+   __save_params at the end of __init__ raises *)
+Definition M_struct : mdesc :=
+  [{| p_dt := DStruct [([105%N], DInt 0 10); ([115%N], DStr 0 8 false)] [[105%N]; [115%N]]; p_pers := 1; p_hasw := false;
+      p_default := VMap [([105%N], VInt 0); ([115%N], VStr [])] |}].
 
 Theorem C17_refuted_outdated_shape : exists M cfg n d raw,
   target d = Some (CForeign (PJObj raw)) /\ snd (do_init M cfg None n d) = RExc /\ md (fst (do_init M cfg None n d)) = None.
 Proof.
-  exists M_tuple, [], 3, {| target := Some (CForeign (PJObj [(0, VSeq [VInt 1])])); tmp := None |}, [(0, VSeq [VInt 1])].
+  exists M_struct, [], 3, {| target := Some (CForeign (PJObj [(0, VMap [([105%N], VInt 5)])])); tmp := None |},
+    [(0, VMap [([105%N], VInt 5)])].
   vm_compute. repeat split; reflexivity.
 Qed.
 
